@@ -159,6 +159,7 @@ func c29sRun(x *mc.Exec, sc c29sScenario, rep *mc.Report) mc.Verdict {
 	var log []string
 	var heldSum int64
 	res := vsched.Run(x, vsched.Config{
+		FreeBlockedSwitch: true,
 		AtQuiescence: func(s *vsched.Sched) { mon.check(s) },
 		Cleanup: func() {
 			for _, c := range cancels {
